@@ -6,6 +6,7 @@ import GuppyVerif.Lemmas.C12Exact
 import GuppyVerif.Lemmas.C12Bound
 import GuppyVerif.Lemmas.C12LinCompl
 import GuppyVerif.Lemmas.C12Call
+import GuppyVerif.Lemmas.C12CallIff
 /-! # C12 — type inference finds an instantiation exactly when one exists
 
 Property theorems about `Model/Unify.lean` (the model of `unify`, `_unify_var`, `_occurs`, `_unify_args`,
@@ -281,6 +282,44 @@ theorem generic_call_sound (E : Env) (fuel p0 : Nat) (exp : Tm) (fresh : List V)
 example : checkAgainst {} 9 0 (.node (.func [0] 0) [.targ (.var 8), .targ (.atom (.num 2))]) [2000]
     (.node (.func [0] 1) [.targ (.atom (.bvar 0)), .targ (.atom (.bvar 0))])
     = .ok [.atom (.num 2)] [(8, .atom (.num 2))] := by rfl
+
+/-- **Generic call, exactly when** (closed expected type).  A generic function value `forall params. body`
+    whose parameters all occur in its signature is accepted against a variable-free expected type `exp` exactly
+    when some instantiation `ρ` of the parameters makes the signature identical to `exp` (up to flags).
+    Partial: proved where the ownership-flag rule cannot fire (`NoLinear E`), for well-sorted inputs; for expected
+    types that still contain inference variables only `generic_call_sound` is proved (the code additionally
+    demands that the principal instantiation is variable-free, which is checked in the tie). -/
+theorem generic_call_closed_iff_partial (E : Env) (hE : NoLinear E) (p0 : Nat) (exp : Tm) (fresh : List V)
+    (fl : List Nat) (p : Nat) (args : List Tm)
+    (hexp : exp.vars = []) (hexpwf : exp.wf = true) (hact : ∀ a ∈ args, a.vars = []) (hactwf : wfArgs args = true)
+    (hfresh : fresh.Nodup)
+    (hocc : ∀ f ∈ fresh, f ∈ (Tm.node (.func fl p0) (instBList (fresh.map .var) args)).vars) :
+    (∃ n ins σ', checkAgainst E n p0 exp fresh (.node (.func fl p) args) = .ok ins σ') ↔
+      ∃ ρ : List Tm, ρ.length = fresh.length ∧ FlagEq exp (.node (.func fl p0) (instBList ρ args)) := by
+  constructor
+  · rintro ⟨n, ins, σ', h⟩
+    obtain ⟨h1, h2, _⟩ := checkAgainst_sound E n p0 exp fresh fl p args ins σ' hact h
+    refine ⟨ins, h2, ?_⟩
+    have : apply σ' exp = exp := inst_id_of exp _ (fun y hy => by rw [hexp] at hy; cases hy)
+    rw [this] at h1
+    exact h1
+  · rintro ⟨ρ, hl, hfit⟩
+    obtain ⟨n, ins, h⟩ := checkAgainst_complete_closed E hE p0 exp fresh fl p args hexp hexpwf hact hactwf
+      hfresh hocc ρ hl hfit
+    exact ⟨n, ins, [], h n (Nat.le_refl _)⟩
+
+/-- non-vacuity of the hypotheses: `forall T. (T, T) -> T` against `(int, int) -> int` -/
+example : NoLinear {} ∧
+    (Tm.node (.func [0, 0] 0) [.targ (.atom (.num 2)), .targ (.atom (.num 2)), .targ (.atom (.num 2))]).vars = [] ∧
+    wfArgs [.targ (.atom (.bvar 0)), .targ (.atom (.bvar 0)), .targ (.atom (.bvar 0))] = true ∧
+    [2000].Nodup ∧
+    (∀ f ∈ [2000], f ∈ (Tm.node (.func [0, 0] 0) (instBList ([2000].map .var)
+        [.targ (.atom (.bvar 0)), .targ (.atom (.bvar 0)), .targ (.atom (.bvar 0))])).vars) ∧
+    checkAgainst {} 9 0
+      (.node (.func [0, 0] 0) [.targ (.atom (.num 2)), .targ (.atom (.num 2)), .targ (.atom (.num 2))]) [2000]
+      (.node (.func [0, 0] 1) [.targ (.atom (.bvar 0)), .targ (.atom (.bvar 0)), .targ (.atom (.bvar 0))])
+      = .ok [.atom (.num 2)] [] :=
+  ⟨noLinear_default, rfl, rfl, by simp, by simp [instBList, instB, Tm.vars, varsList], rfl⟩
 
 /-! ### non-vacuity -/
 
